@@ -11,6 +11,7 @@ CONSTANTS MaxEp = 2
           Unreliable = FALSE
           AllowExit = TRUE
           MaxSockFail = 1
+          MaxRF = 0
           KF_Overtake = FALSE
 INVARIANT ConnectedSound
 INVARIANT ReadyIffEnterConnected
